@@ -62,6 +62,14 @@ pub struct Case {
     /// the other object (whose key is borrowed) is held by the node
     pub other_held: bool,
     pub seed: u8,
+    /// client-put path only: the record reaches the kad store WITHOUT a payment envelope (plain
+    /// Chunk / Scratchpad / Transaction / Register kind) — honest clients never send that, any peer can
+    #[serde(default)]
+    pub plain_envelope: bool,
+    /// the node keeps only its last 2 records in memory and three further records are stored after the
+    /// prior content: what the node holds under the presented key is then on disk only
+    #[serde(default)]
+    pub cold: bool,
 }
 
 pub fn case_strategy() -> BoxedStrategy<Case> {
@@ -73,8 +81,10 @@ pub fn case_strategy() -> BoxedStrategy<Case> {
         any::<bool>(),
         any::<bool>(),
         any::<u8>(),
+        prop_oneof![3 => Just(false), 1 => Just(true)],
+        prop_oneof![3 => Just(false), 1 => Just(true)],
     )
-        .prop_map(|(kind, path, mismatch, shape, prior, other_held, seed)| Case { kind, path, mismatch, shape, prior, other_held, seed })
+        .prop_map(|(kind, path, mismatch, shape, prior, other_held, seed, plain_envelope, cold)| Case { kind, path, mismatch, shape, prior, other_held, seed, plain_envelope, cold })
         .boxed()
 }
 
@@ -106,11 +116,11 @@ pub fn derived_keys(value: &[u8]) -> Result<Vec<Vec<u8>>, String> {
 }
 
 fn all_payments_valid(kind: Kind, seed: u8) -> PayCase {
-    PayCase { kind, paid: true, prior: 0, rt_peers: 4, s: SFault::Ok, p: true, k: KFault::Ok, e: EFault::Ok, o: [true; 3], rpc: Default::default(), a: true, own_pos: seed % 3, seed }
+    PayCase { kind, paid: true, prior: 0, rt_peers: 4, s: SFault::Ok, p: true, k: KFault::Ok, e: EFault::Ok, o: [true; 3], rpc: Default::default(), a: true, own_pos: seed % 3, seed, prior_other_kind: false }
 }
 
 pub fn check(case: &Case, ctx: &mut Ctx) {
-    let mut cl = Cluster::new(&[1], None);
+    let mut cl = Cluster::new(&[1], if case.cold { Some((16 * 1024, 2)) } else { None });
     let pl = payload(case.kind, case.seed);
     let other = payload(case.kind, case.seed.wrapping_add(101));
     if case.prior {
@@ -120,10 +130,17 @@ pub fn check(case: &Case, ctx: &mut Ctx) {
         cl.seed_record(0, other.prior.clone().unwrap());
     }
     cl.seed_record(0, fix::chunk_record(&fix::chunk(5, 33)));
+    if case.cold {
+        cl.seed_record(0, fix::chunk_record(&fix::chunk(6, 34)));
+        cl.seed_record(0, fix::chunk_record(&fix::chunk(7, 35)));
+        ctx.label("held_records_on_disk_only");
+    }
     let (proof, _hashes, _) = build_proof(&all_payments_valid(case.kind, case.seed), &mut cl, &pl);
 
     // the record as presented
-    let paid = case.path == Path::ClientPut;
+    let plain_put = case.path == Path::ClientPut && case.plain_envelope;
+    ctx.label_if(plain_put, "kad_put_without_payment_envelope");
+    let paid = case.path == Path::ClientPut && !case.plain_envelope;
     let mut rec = (pl.build)(if paid { Some(&proof) } else { None });
     let mismatched = match case.mismatch {
         Mismatch::None => false,
@@ -275,7 +292,7 @@ pub fn check(case: &Case, ctx: &mut Ctx) {
     ctx.label(format!("{:?}_{:?}", case.kind, case.path));
     ctx.label(format!("mismatch_{:?}", case.mismatch));
     ctx.label_if(malformed, "malformed");
-    ctx.canon = Some(format!("{:?}/{:?}/{:?}/{:?}/{}/{}", case.kind, case.path, case.mismatch, case.shape, case.prior, case.other_held));
+    ctx.canon = Some(format!("{:?}/{:?}/{:?}/{:?}/{}/{}/{}/{}", case.kind, case.path, case.mismatch, case.shape, case.prior, case.other_held, plain_put, case.cold));
     ctx.sample = Some(serde_json::json!({"case": case, "result": format!("{direct_result:?}"), "keys_before": before.len(), "keys_after": after.len()}));
     ctx.nontrivial_if(mismatched || case.mismatch == Mismatch::MixedOwners);
 
@@ -299,6 +316,7 @@ pub fn check(case: &Case, ctx: &mut Ctx) {
     }
     // (3) matched + valid => stored (on the paths where the statement lets it in)
     let eligible = match case.path {
+        Path::ClientPut if plain_put => case.prior && matches!(case.kind, Kind::Pad | Kind::Reg),
         Path::ClientPut | Path::Replicated => true,
         Path::UnpaidUpdate => case.prior && matches!(case.kind, Kind::Pad | Kind::Reg),
     };
